@@ -139,8 +139,15 @@ def c12(ck, replay=None):
         scs = PB.gen_scenarios(rnd, 'proc', 2) + PB.gen_scenarios(rnd, 'thread', 1)
     items = [{'id': i + 1, 'sc': sc} for i, sc in enumerate(scs)]
     traces, hangs = _run_cases(ck, 'procoutcome', items, sig_of_hang=_po_sig_of_hang)
-    for h in hangs:
-        if h['status'] != 'hang':
+    for h in list(hangs):
+        if h['status'] == 'nophase' and h['sc'].get('phase') in ('between', 'final'):
+            # the child never got to a point that lies BEHIND the delivery of its outcome (three times, in fresh processes):
+            # it is stuck in the library's own code, not in the harness's
+            hangs.remove(h)
+            ck.violation({'leg': 'L3', 'kind': 'child-stuck', 'detail': h.get('detail'), 'sc': h['sc'], 'events': h['ev'][-20:]},
+                         sig={'leg': 'L3', 'kind': 'child-stuck-delivering-outcome', 'flavour': h['sc']['flavour'],
+                              'scenario': _po_scen(h['sc'])})
+        elif h['status'] != 'hang':
             raise framework.Machinery(f'C12 harness: {h["status"]}: {h.get("detail")} in {json.dumps(h["sc"])}')
     _po_report_hangs(ck, hangs, 'real Process / Thread objects')
     # what a hung case observed before it hung is a trace prefix and is validated like the complete traces
